@@ -1,11 +1,185 @@
-/- Driver ops for C15. -/
-import Driver.Loop
+/- Driver ops for C15 (preload transparency).
 
-open Lean Model
+One op, `c15.history`: runs `Model.Preload.Impl.history` at `α := Float` (IEEE doubles, so that the only
+arithmetic the model does itself — `F += H`, `c[i,i] += v` — rounds exactly as numpy does).
+Doubles travel as their 64-bit patterns (JSON integers), exact both ways.  The numerical kernels
+(`Ext`) are given by the harness as finite tables sampled from reference runs of the real code; a
+lookup outside a table yields the marker `[NaN]`, which the harness reports.
+-/
+import Driver.Loop
+import Model.Preload
+
+open Lean Model Model.Preload
 
 namespace Driver.C15
 
-def ops : List (String × Op) := []
+abbrev Buf := List Float
+
+def getF (j : Json) : Except String Float := do
+  let n ← getNat j
+  pure (Float.ofBits (UInt64.ofNat n))
+
+def fToJson (x : Float) : Json := natToJson x.toBits.toNat
+
+def getBuf (j : Json) : Except String Buf := getList getF j
+def bufToJson (b : Buf) : Json := listToJson fToJson b
+
+def eqBuf (a b : Buf) : Bool :=
+  a.length == b.length && (a.zip b).all fun p => p.1.toBits == p.2.toBits
+
+def nanBuf : Buf := [Float.ofBits 0x7ff8000000000000]
+def nan : Float := Float.ofBits 0x7ff8000000000000
+
+def optField (j : Json) (k : String) : Option Json :=
+  match j.getObjVal? k with
+  | .ok .null => none
+  | .ok v => some v
+  | .error _ => none
+
+def getOpt (f : Json → Except String β) (j : Json) (k : String) : Except String (Option β) :=
+  match optField j k with
+  | none => pure none
+  | some v => do pure (some (← f v))
+
+def getWrites (j : Json) : Except String (List (Nat × Float)) :=
+  getList (fun e => do
+    let l ← getArr e
+    match l with
+    | [i, v] => pure ((← getNat i), (← getF v))
+    | _ => throw "bad write") j
+
+/-- table of a 1-argument kernel: [[key, value], …] -/
+def table1 (val : Json → Except String β) (dflt : β) (j : Json) (k : String) :
+    Except String (Buf → β) := do
+  let rows ← getList (fun e => do
+    let l ← getArr e
+    match l with
+    | [a, v] => pure ((← getBuf a), (← val v))
+    | _ => throw s!"bad table row in {k}") (fieldD j k (Json.arr #[]))
+  pure fun x => match rows.find? (fun r => eqBuf r.1 x) with
+    | some r => r.2
+    | none => dflt
+
+/-- table of a 2-argument kernel: [[key1, key2, value], …] -/
+def table2 (val : Json → Except String β) (dflt : β) (j : Json) (k : String) :
+    Except String (Buf → Buf → β) := do
+  let rows ← getList (fun e => do
+    let l ← getArr e
+    match l with
+    | [a, b, v] => pure ((← getBuf a), (← getBuf b), (← val v))
+    | _ => throw s!"bad table row in {k}") (fieldD j k (Json.arr #[]))
+  pure fun x y => match rows.find? (fun r => eqBuf r.1 x && eqBuf r.2.1 y) with
+    | some r => r.2.2
+    | none => dflt
+
+def constBuf (j : Json) (k : String) : Except String Buf :=
+  match optField j k with
+  | none => pure nanBuf
+  | some v => getBuf v
+
+def getExt (j : Json) : Except String (Ext Float) := do
+  let nanW : List (Nat × Float) := [(0, nan)]
+  pure {
+    lfCompute := ← constBuf j "lf_compute"
+    momdCompute := ← constBuf j "momd_compute"
+    dlfOfLf := ← table1 getBuf nanBuf j "dlf_of_lf"
+    ommPlain := ← constBuf j "omm_plain"
+    ommOfLf := ← table1 getBuf nanBuf j "omm_of_lf"
+    dvOfOmm := ← table1 getBuf nanBuf j "dv_of_omm"
+    curvOfOmm := ← table1 getBuf nanBuf j "curv_of_omm"
+    mappedMapping := ← table2 getBuf nanBuf j "mapped_mapping"
+    wtCompute := ← constBuf j "wt_compute"
+    wtCheck := ← table1 getBool true j "wt_check"
+    dvW := ← constBuf j "dv_w"
+    dvFuncEntries := ← table1 getWrites nanW j "dv_func_entries"
+    diagOfWT := ← table1 getBuf nanBuf j "diag_of_wt"
+    offDiagWrites := ← table1 getWrites nanW j "off_diag_writes"
+    funcOffViaDlf := ← table1 getWrites nanW j "func_off_via_dlf"
+    funcOffViaMomd := ← table2 getWrites nanW j "func_off_via_momd"
+    funcOffDefault := ← table1 getWrites nanW j "func_off_default"
+    funcDiagWrites := ← table1 getWrites nanW j "func_diag_writes"
+    mirror := ← table1 getBuf nanBuf j "mirror"
+    mappedW := ← table2 getBuf nanBuf j "mapped_w"
+    regCompute := ← constBuf j "reg_compute"
+    reduce := ← table1 getBuf nanBuf j "reduce"
+    reduceVec := ← table1 getBuf nanBuf j "reduce_vec"
+    logDetReg := ← table1 getF nan j "log_det_reg"
+    solve := ← table2 getBuf nanBuf j "solve"
+    regTerm := ← table2 getF nan j "reg_term"
+    logDetCurvReg := ← table1 getF nan j "log_det_curv_reg"
+  }
+
+def getCfg (j : Json) : Except String (Cfg Float) := do
+  pure {
+    settingsUseWTilde := ← getBool (← field j "settings_use_w_tilde")
+    allFuncLists := ← getBool (← field j "all_func_lists")
+    hasFuncList := ← getBool (← field j "has_func_list")
+    nMappers := ← getNat (← field j "n_mappers")
+    nObjs := ← getNat (← field j "n_objs")
+    hasReg := ← getBool (← field j "has_reg")
+    allReg := ← getBool (← field j "all_reg")
+    funcOverride := ← getBool (← field j "func_override")
+    noRegIdx := ← getNats (← field j "no_reg_idx")
+    diagValue := ← getF (← field j "diag_value")
+    dim := ← getNat (← field j "dim")
+  }
+
+def getPolicy (j : Json) : Except String Policy := do
+  pure {
+    copyCurvature := ← getBool (← field j "copy_curvature")
+    copyDataVectorMapper := ← getBool (← field j "copy_dvm")
+    copyMapperDiag := ← getBool (← field j "copy_diag")
+    guardDataVectorMapper := ← getBool (← field j "guard_dvm")
+  }
+
+def getPreloads (j : Json) : Except String (Preloads Float) := do
+  pure {
+    wTilde := ← getOpt getNat j "w_tilde"
+    useWTilde := ← getOpt getBool j "use_w_tilde"
+    operatedMappingMatrix := ← getOpt getNat j "operated_mapping_matrix"
+    linearFuncDict := ← getOpt getNat j "linear_func_operated_mapping_matrix_dict"
+    dataLinearFuncDict := ← getOpt getNat j "data_linear_func_matrix_dict"
+    mapperOperatedDict := ← getOpt getNat j "mapper_operated_mapping_matrix_dict"
+    curvatureMatrix := ← getOpt getNat j "curvature_matrix"
+    dataVectorMapper := ← getOpt getNat j "data_vector_mapper"
+    curvatureMatrixMapperDiag := ← getOpt getNat j "curvature_matrix_mapper_diag"
+    regularizationMatrix := ← getOpt getNat j "regularization_matrix"
+    logDetRegularizationMatrixTerm := ← getOpt getF j "log_det_regularization_matrix_term"
+  }
+
+def getAccess (j : Json) : Except String Access := do
+  match ← getStr j with
+  | "operated_mapping_matrix" => pure .operatedMappingMatrix
+  | "data_vector" => pure .dataVector
+  | "curvature_matrix" => pure .curvatureMatrix
+  | "regularization_matrix" => pure .regularizationMatrix
+  | "curvature_reg_matrix" => pure .curvatureRegMatrix
+  | "reconstruction" => pure .reconstruction
+  | "mapped_reconstructed_data" => pure .mappedReconstructedData
+  | "regularization_term" => pure .regularizationTerm
+  | "log_det_curvature_reg_matrix_term" => pure .logDetCurvatureRegMatrixTerm
+  | "log_det_regularization_matrix_term" => pure .logDetRegularizationMatrixTerm
+  | s => throw s!"bad access {s}"
+
+/-- `c15.history` -/
+def historyOp : Op := fun j => do
+  let cfg ← getCfg (← field j "cfg")
+  let pol ← getPolicy (← field j "policy")
+  let ext ← getExt (← field j "ext")
+  let heap0 : Heap Float := ⟨← getList getBuf (← field j "heap")⟩
+  let p ← getPreloads (← field j "preloads")
+  if !decide (p.Below heap0.size) then throw "dangling_preload_ref"
+  let hist ← getList (getList getAccess) (← field j "history")
+  let res := Impl.history cfg ext pol p hist heap0
+  let outs := res.2.map fun o => match o with
+    | none => Json.str "inversion_exception"
+    | some l => listToJson bufToJson l
+  pure (obj [("outputs", Json.arr outs.toArray),
+             ("heap_after", listToJson bufToJson (res.1.bufs.take heap0.size)),
+             ("use_w_tilde", Json.bool (useWTilde cfg p.useWTilde)),
+             ("heap_size", natToJson res.1.size)])
+
+def ops : List (String × Op) := [("c15.history", historyOp)]
 
 end Driver.C15
 
